@@ -16,7 +16,7 @@ PID = "C06"
 RULE = ("Hypothesis-generated histories of 2..12 steps executed in ONE process per build (thread-safe and non-thread-safe): "
         "execv/execve with generated path and argv (NULL, {NULL}, 1..5000 entries, empty strings, spaces/control bytes/"
         "newlines, totals around and far above the data-source limit), calls from a second thread (ts build), and changes "
-        "of datasource_message_max_length; format '%{filename}<0x1f>%{cmdline}', each record read as the byte content the "
+        "of datasource_message_max_length, removal of the working directory; format '[%{cwd}<0x1f>]%{filename}<0x1f>%{cmdline}' (the cwd field, which fails once the directory is gone, must be identical for all calls made in the same directory), each record read as the byte content the "
         "call added. non-trivial = history with (long call followed by a shorter one) OR (non-NULL argv followed by "
         "NULL/empty argv) OR (execv/execve alternation); distinct by the sequence of step shapes")
 
@@ -55,9 +55,11 @@ def strategy():
 
     @st.composite
     def step(draw, L):
-        k = draw(st.sampled_from(["call"] * 8 + ["thread", "limit"]))
+        k = draw(st.sampled_from(["call"] * 8 + ["thread", "limit", "rmcwd"]))
         if k == "limit":
             return {"op": "limit", "L": draw(st.sampled_from(LIMS))}
+        if k == "rmcwd":
+            return {"op": "rmcwd"}
         path = draw(st.one_of(st.just(b"/bin/true"), gen.text_bytes(1, 30).map(lambda b: b"/" + b),
                               gen.bytes_nonul(0, 20).map(lambda b: b.replace(SEP, b"_")),
                               st.sampled_from([L - 1, L, L + 1, 3 * L]).map(lambda n: b"/" + b"f" * max(0, n - 1))))
@@ -74,13 +76,15 @@ def strategy():
             if s["op"] == "limit":
                 cur = s["L"]
             steps.append(s)
-        return {"L0": L, "steps": steps}
+        # half of the histories put a data source in front whose value depends on the working directory only (and which FAILS once
+        # that directory has been removed): whatever it yields, it is the same for all calls made in the same directory
+        return {"L0": L, "steps": steps, "cwdfirst": draw(st.booleans())}
     return case()
 
 
-def ini_for(out, L):
+def ini_for(out, L, cwdfirst=False):
     return gen.render_ini([(b"output", b"file:" + out.encode() + b"/log"),
-                           (b"message_format", b"%{filename}" + SEP + b"%{cmdline}"),
+                           (b"message_format", (b"%{cwd}" + SEP if cwdfirst else b"") + b"%{filename}" + SEP + b"%{cmdline}"),
                            (b"datasource_message_max_length", str(L).encode()),
                            (b"log_message_max_length", b"1048575")])
 
@@ -88,13 +92,21 @@ def ini_for(out, L):
 def run_variant(env, variant, c):
     d = env.driver(variant)
     out = d.out
-    ops = [drv.op("W", "log", out + "/log"), drv.op("C", ini_for(out, c["L0"]))]
+    cf = c.get("cwdfirst", False)
+    ops = [drv.op("W", "log", out + "/log"), drv.op("C", ini_for(out, c["L0"], cf)), drv.op("H", out)]
     expect = []
     L = c["L0"]
+    epoch = 0
     for s in c["steps"]:
         if s["op"] == "limit":
             L = s["L"]
-            ops.append(drv.op("C", ini_for(out, L)))
+            ops.append(drv.op("C", ini_for(out, L, cf)))
+            continue
+        if s["op"] == "rmcwd":
+            # the process changes into a fresh directory and removes it: getcwd() fails from now on
+            epoch += 1
+            name = "gone-%s-%d" % (variant, epoch)
+            ops += [drv.op("H", out), drv.op("h", name.encode()), drv.op("u", out + "/" + name)]
             continue
         if s["op"] == "thread" and variant.startswith("nts"):
             continue
@@ -105,7 +117,7 @@ def run_variant(env, variant, c):
         else:
             ops.append(drv.op_exec(s["kind"], s["path"], s["argv"], [b"A=1"], ret=-1, err=2))
         ops.append(drv.op("G"))
-        expect.append((s, L))
+        expect.append((s, L, epoch))
     res = d.scenario(ops)
     reports = d.sanitizer_reports()
     if not res.clean:
@@ -115,7 +127,8 @@ def run_variant(env, variant, c):
     if len(Gs) != len(expect):
         raise Failure("[%s] %d of %d calls completed" % (variant, len(Gs), len(expect)), {"result": res.describe()}, key="incomplete")
     fmt = b"%{filename}" + SEP + b"%{cmdline}"
-    for i, ((s, L), g) in enumerate(zip(expect, Gs)):
+    cwd_fields = {}
+    for i, ((s, L, epoch), g) in enumerate(zip(expect, Gs)):
         content = drv.parse_dump(g)["log"][2]
         argv = drv.vec_list(s["argv"])
         fctx = model.FormatCtx(s["path"], argv, None)
@@ -124,6 +137,15 @@ def run_variant(env, variant, c):
             if not content.endswith(b"\n"):
                 raise Failure("[%s] step %d: record not newline-terminated" % (variant, i), {"tail": content[-40:]}, key="framing")
             record = content[:-1]
+            if cf:
+                cwdf, sep_, record = record.partition(SEP)
+                if not sep_:
+                    raise Failure("[%s] step %d: record lacks the field separator" % (variant, i), {"record_head": content[:200]}, key="framing")
+                first = cwd_fields.setdefault(epoch, (i, cwdf))
+                if first[1] != cwdf:
+                    raise Failure("[%s] step %d: %%{cwd} differs from what step %d logged in the same working directory%s" % (
+                                  variant, i, first[0], " (removed directory: the data source fails)" if epoch else ""),
+                                  {"this_call": cwdf[:300], "earlier_call": first[1][:300]}, key="cwd-field")
         bad = model.check_expansion(record, fmt, fctx, L, 1048575)
         if bad:
             raise Failure("[%s] step %d (%s, argv %s): %s" % (variant, i, s["op"], gen.vec_class(s["argv"]), bad[0]),
@@ -141,6 +163,8 @@ def evaluate(env, c):
 def shape(s):
     if s["op"] == "limit":
         return "L%d" % s["L"]
+    if s["op"] == "rmcwd":
+        return "X"
     a = s["argv"]
     n = -1 if a is None else (0 if (not isinstance(a, tuple) and len(a) == 0) else
                               (a[1] * (len(a[2]) + 1) if isinstance(a, tuple) else sum(len(x) + 1 for x in a)))
@@ -149,7 +173,7 @@ def shape(s):
 
 
 def classify(c):
-    calls = [s for s in c["steps"] if s["op"] != "limit"]
+    calls = [s for s in c["steps"] if s["op"] not in ("limit", "rmcwd")]
     sh = [shape(s) for s in c["steps"]]
     def tot(s):
         a = drv.vec_list(s["argv"])
@@ -169,13 +193,17 @@ def classify(c):
         cls.append("second-thread")
     if any(s["op"] == "limit" for s in c["steps"]):
         cls.append("limit-change")
+    if any(s["op"] == "rmcwd" for s in c["steps"]):
+        cls.append("working-directory-removed")
+        if c.get("cwdfirst"):
+            cls.append("working-directory-removed+cwd-field")
     cls.append("steps:%d" % len(c["steps"]))
     return (tuple(sh) if nontriv else None), cls
 
 
 def sample(c):
     def short(s):
-        if s["op"] == "limit":
+        if s["op"] in ("limit", "rmcwd"):
             return s
         a = s["argv"]
         if isinstance(a, list):
